@@ -6,7 +6,7 @@
    strictly monotone) are explicit hypotheses; the Go driver validates them on the real tables. *)
 From Coq Require Import List NArith ZArith.
 Import ListNotations.
-From GMS Require Import Codec.Charset Codec.Collation Codec.CollationProofs Codec.CollationLike.
+From GMS Require Import Codec.Charset Codec.Collation Codec.CollationProofs Codec.CollationLike Codec.CollationLikeComplete.
 
 (* total preorder: reflexive, total (the converse comparison is the opposite), transitive *)
 Theorem C29_compare_reflexive : forall (w : N -> Z) bin a, compare w bin a a = Eq.
@@ -76,13 +76,21 @@ Print Assumptions C29_like_without_wildcards_iff_compare_equal_partial.
 
 (* patterns WITH wildcards: the backtracking machine never accepts a string outside the declarative meaning of the
    pattern ('%' any sequence of runes, '_' one rune, a literal one rune of equal weight), whatever the weights and the
-   fuel.  _partial: the converse (every string the pattern denotes is accepted) is NOT proved; it is checked on the
-   implementation against an independent matcher, exhaustively for all patterns and strings up to length 5 over a
-   two-letter alphabet plus generated cases under every collation. *)
+   fuel, also on strings containing malformed runes.  _partial only in that it is the soundness half; the full
+   equivalence for well-formed strings is the next theorem. *)
 Theorem C29_like_match_sound_partial :
   forall fuel nodes s, like_match fuel nodes s = Some true -> dlike nodes s = true.
 Proof. exact like_match_sound. Qed.
 Print Assumptions C29_like_match_sound_partial.
+
+(* ... and on strings without malformed runes the machine's answer, whenever it finishes within its fuel, IS the
+   declarative meaning of the pattern: '%' any sequence of runes, '_' one rune, a literal one rune of equal weight -
+   for every weight assignment (soundness and completeness; the proof carries the depth-first-search history of the
+   backtracking stack).  Termination within a computed fuel bound is not proved (the statement excludes running out). *)
+Theorem C29_like_match_equals_declarative_meaning :
+  forall fuel nodes ws r, like_match fuel nodes (map Good ws) = Some r -> r = dlike nodes (map Good ws).
+Proof. exact like_match_correct. Qed.
+Print Assumptions C29_like_match_equals_declarative_meaning.
 
 Example C29_like_nonvacuous :
   (like_match 100 [NRune 72; NRune (-1); NRune 76; NAny; NRune 79] (map Good [72; 69; 76; 76; 79]) = Some true /\
